@@ -189,6 +189,31 @@ def sequence_modes(ctx, sq):
                     behind = v.attr
                 else:
                     raise Undecided('Sequence._compile stores %s behind .unpack' % canon(v)[:60])
+        # a test of _compile on what it has just stored (if self.get_how_many_elements: ...) is
+        # decided by that store: None is false, a normalised condition is a callable (true, as in
+        # the same test made at run time by the unsplit unpack)
+        gt_ = set(p.guard_texts())
+        infeasible = False
+        stored_ = {}
+        for e in p.effects:
+            if e.kind == 'store_attr' and canon(e.obj) == 'self' and e.name in last:
+                stored_[e.name] = canon(e.value)
+        for attr_, set_ in last.items():
+            sv_ = stored_.get(attr_)
+            if sv_ is not None and set_ and ('not ' + sv_) in gt_:
+                infeasible = True       # the value just stored (a normalised condition) tested false
+            if sv_ is not None and not set_ and sv_ in gt_:
+                infeasible = True
+            if ('self.%s' % attr_) in gt_ and not set_:
+                infeasible = True
+            if ('not self.%s' % attr_) in gt_ and set_:
+                infeasible = True
+            if ('(self.%s is None)' % attr_) in gt_ and set_:
+                infeasible = True
+            if ('(self.%s is not None)' % attr_) in gt_ and not set_:
+                infeasible = True
+        if infeasible:
+            continue
         if 'get_how_many_elements' in last and 'until_condition' in last:
             # a when stored from a call is "set"; only an explicit None alternative is "not set"
             combos.add((last['get_how_many_elements'], last['until_condition'], last.get('when'), behind))
